@@ -549,7 +549,10 @@ fn c_boxed_hex_hostile(c: &Case, rep: &mut Rep) {
     match catch(|| BoxedUint::from_be_hex(s, prec)) {
         Ok(r) => {
             if !right_len {
-                rep.fail("boxed.from_be_hex.wrong_length_panics", format!("accepted {} characters", raw.len()));
+                // a string of the wrong length must be rejected (none; a panic is C11's business)
+                if let Some(v) = ct(r) {
+                    rep.fail("boxed.from_be_hex.rejects_wrong_length", format!("accepted {} characters as {}", raw.len(), hex(&bl(&v))));
+                }
                 return;
             }
             match (ct(r), &want) {
